@@ -78,6 +78,7 @@ class Ctx:
         self.action_cov = {}
         self.nrep = 0
         self.validations = []
+        self.unevaluable = 0
         kf = json.load(open(os.path.join(VERIF, 'known_findings.json')))
         self.findings = [f for f in kf.get('findings', []) if f.get('property') == pid]
 
@@ -234,12 +235,30 @@ class Ctx:
             self.trace_runs.append(dict(module=module, events=len(part), consumed=consumed, mismatches=len(mism), wall_s=round(r['wall'], 1)))
             if r['rc'] == 124:
                 raise ToolError('TLC timeout validating %s' % events_path)
-            if not ok and not mism:
+            if (not ok and not mism) or consumed != len(part):
+                # TLC could not evaluate some event (an operator applied to a malformed value logged from the code under
+                # test: wrong length, missing element, ...).  On the unchanged tree this never happens; when it does, the
+                # offending event is reported as a violation ("unevaluable") and validation resumes at the next case.
+                ls = re.findall(r'\bl = (\d+)', out)
+                evalerr = ('Error: ' in out) and not ('Postcondition' in out and consumed == len(part))
+                if evalerr and ls and 1 <= int(ls[-1]) <= len(part) and self.unevaluable < 200:
+                    k = int(ls[-1])                      # 1-based index of the event TLC choked on
+                    for (l, eid, why) in mism:
+                        if int(l) < k:
+                            e = part[int(l) - 1]
+                            nmis += 1
+                            self._violation(suite, module, e, bycid.get(e.get('cid')), why.strip('"'))
+                    bad = part[k - 1]
+                    nmis += 1
+                    self.unevaluable += 1
+                    self._violation(suite, module, bad, bycid.get(bad.get('cid')), 'unevaluable event (malformed output of the code under test)')
+                    nxt = start + k
+                    while nxt < len(events) and events[nxt].get('cid') == bad.get('cid'):
+                        nxt += 1
+                    start = nxt
+                    continue
                 print(out[-6000:])
                 raise ToolError('trace validation of %s by %s ended abnormally (not a verdict)' % (events_path, module))
-            if consumed != len(part):
-                print(out[-3000:])
-                raise ToolError('trace validation consumed %d of %d events' % (consumed, len(part)))
             for (l, eid, why) in mism:
                 e = part[int(l) - 1]
                 nmis += 1
@@ -354,7 +373,17 @@ def main():
         tier = os.environ.get('VERIF_TIER', tier) if False else tier
         ctx = Ctx(pid, tier, seed)
         ctx.build()
-        rc = props.CHECKS[pid](ctx)
+        try:
+            rc = props.CHECKS[pid](ctx)
+        except ToolError as ex:
+            # a vacuity / consistency guard of the check fired AFTER violations had already been established:
+            # the violations are the verdict (a broken implementation may well starve a later stage of events)
+            if [v for v in ctx.violations if v]:
+                print('NOTE: check aborted by a guard after violations were found:', ex)
+                ctx.notes.append('aborted by guard after violations: %s' % ex)
+                rc = ctx.finish(rule='(run aborted by a guard after violations were found)')
+            else:
+                raise
         sys.exit(rc)
     except ToolError as ex:
         print('TOOL-ERROR:', ex)
